@@ -266,8 +266,8 @@ def run(tier, seed):
     res = Result("C09", tier, seed)
     work = Work("C09")
     try:
-        ok, blog = coq_build(["props/C09.vo", "props/C01restore.vo", "props/C09rot.vo", "corr/C01corr.vo", "corr/C09corr.vo", "corr/C09rot.vo"])
-        proofs_ok, pa = proof_obligations_multi(work, res, ["C09.v", "C01restore.v", "C09rot.v"], ok, blog)
+        ok, blog = coq_build(["props/C09.vo", "props/C01restore.vo", "props/C09rot.vo", "props/C09excl.vo", "corr/C01corr.vo", "corr/C09corr.vo", "corr/C09rot.vo"])
+        proofs_ok, pa = proof_obligations_multi(work, res, ["C09.v", "C01restore.v", "C09rot.v", "C09excl.v"], ok, blog)
         if ok:
             # the model's probe_next / next_idx proved equal to what the source says on this run (tools/gentie.py)
             import gentie
